@@ -7,6 +7,7 @@
 #![allow(dead_code, unused_imports, unused_variables)]
 
 pub mod alloc_ledger;
+pub mod iterproto;
 pub mod drivers;
 pub mod exercise;
 pub mod exercise_hdr;
